@@ -65,10 +65,8 @@ def encode_to_dict(obj: Any, refs: Dict[int, Any]):
 
         return {"__type": "ref", "__id": obj_id}
 
-    # For primitive values and lists, we leave as is
-    if isinstance(obj, list):
-        return [encode_to_dict(v, refs) for v in obj]
-    elif (
+    # For primitive values, we leave as is
+    if (
         isinstance(obj, str)
         or isinstance(obj, int)
         or isinstance(obj, float)
@@ -119,6 +117,10 @@ def encode_to_dict(obj: Any, refs: Dict[int, Any]):
             value = {"__type": "datetime", "value": obj.isoformat()}
         elif isinstance(obj, Enum):
             value = {"__type": "enum", "__class": type(obj).__name__, "value": obj.name}
+        elif isinstance(obj, list):
+            # Lists are mutable and can be shared (e.g. two variables for the same list),
+            # so they need the reference support as well.
+            value = {"__type": "list", "value": [encode_to_dict(v, refs) for v in obj]}
         elif isinstance(obj, deque):
             value = {"__type": "deque", "value": [encode_to_dict(v, refs) for v in obj]}
         elif isinstance(obj, tuple):
@@ -186,6 +188,9 @@ def decode_from_dict(d: Any, refs: Dict[int, Any]):
 
             elif d_type == "datetime":
                 value = datetime.fromisoformat(d["value"])
+
+            elif d_type == "list":
+                value = decode_from_dict(d["value"], refs)
 
             elif d_type == "deque":
                 value = deque(decode_from_dict(d["value"], refs))
